@@ -178,7 +178,12 @@ func (t *sseClientTransport) start(ctx context.Context) error {
 	go func() {
 		select {
 		case <-ctx.Done():
-			cancel()
+			select {
+			case <-connected:
+				// Already established (both were ready): the stream outlives ctx.
+			default:
+				cancel()
+			}
 		case <-connected:
 		}
 	}()
